@@ -16,7 +16,7 @@ T  FaultTrace.tla judges every observation; goroutine counts after 1,2,4,8,16 re
 """
 import json
 import vlib
-from pipecommon import pipe_cfg, consts
+from pipecommon import pipe_cfg, consts, validate_events
 
 LEVEL = "model_checking"
 
@@ -152,6 +152,26 @@ def run(chk, replay_rec):
                           "goroutines alive after %d x %s: %d (after the first: %d, before: %d, NumCPU %d)" % (
                               e["k"], e["what"], e["live"], e["first"], e["base"], e["numcpu"]), dict(kind="goroutines", what=e["what"]))
     allobs = obs + gor
+    # ---- T: event-level conformance of faulty STL runs with Pipeline.tla, writer kind "drain"
+    # (binds the code's reaction to a write error to the kind for which TLC proved termination)
+    fl = [dict(sink="stl", mode="fsize", limit=lim, items=items, batch=100, evlog=True)
+          for items, lim in ((700, 8191), (3 * TT + 5, 4096), (2 * TT + 1, 84), (5 * TT + 3, 40000))] + \
+         [dict(sink="stl", mode="devfull", limit=0, items=3 * TT, batch=100, evlog=True)]
+    out = chk.vh(["c12-replay", "8"], stdin="\n".join(json.dumps(v) for v in fl) + "\n", timeout=900)
+    fobs = [json.loads(x) for x in out.splitlines() if x.strip()]
+    unexplained = 0
+    for o in fobs:
+        if not o["returned"] or not o.get("evlog") or o["failitem"] < 0:
+            continue
+        rej = validate_events(chk, [dict(sink="stl", name="fault %s" % o["vec"], events=o["evlog"])], 1, TT,
+                              "PipelineTrace fault run limit=%d" % o["vec"]["limit"], kind="drain", failat=o["failitem"] + 1)
+        chk.traces += 1
+        if rej:
+            unexplained += 1
+            chk.notes.append("fault run %s: event %d not explained by Pipeline.tla with a draining writer" % (o["vec"], rej[0][1]))
+    chk.cov["fault_event_traces_validated"] = len(fobs)
+    if unexplained:
+        raise vlib.Inconclusive("the writer's reaction to a sink fault is not the 'drain' behaviour of Pipeline.tla: " + chk.notes[-1])
     if incon:
         raise vlib.Inconclusive("%d fault runs neither returned nor showed a blocked send, e.g. %s" % (len(incon), incon[0]["vec"]))
     faulted = sum(1 for o in obs if o["errs"] > 0 or "top.createfail" in " ".join(o["events"]))
